@@ -11,7 +11,7 @@ demo=$(ls $SRC/demo${N}_test.go 2>/dev/null)
 [ -z "$demo" ] && { echo "no demo"; exit 2; }
 cp $demo $WT/$DEST
 pkgdir=$(dirname $DEST)
-run_demo() { ( cd $WT && env -u GOFLAGS -u GOPROXY go test -mod=mod -vet=off -count=1 -run 'ZZ|Demo|zz' ./$pkgdir/ 2>&1 | tail -3 ); }
+run_demo() { ( cd $WT && env -u GOFLAGS -u GOPROXY go test -mod=mod -vet=off -count=1 -run "ZZ|Demo|zz" ./$pkgdir/ 2>&1 | tail -3 ); }
 echo "== without change:"; r0=$(run_demo); echo "$r0" | tail -2
 git apply $SRC/change$N.diff || { echo "patch does not apply"; exit 2; }
 ( go build ./... ) || { echo "build fails"; exit 2; }
